@@ -309,6 +309,7 @@ def verify_binding(run):
 
 
 def build(run):
+    run.not_demanded = tuple(NOT_DEMANDED)
     run.assume("A-FMT", "A-REFLECT", "A-SET", "A-PY", "A-MSG", "A-LISTVAL")
     src = run.src
     from props import C14
